@@ -220,10 +220,15 @@ Definition spec_code (c : c12case) : Z :=
                 (fun s o => if arg 0 o <=? zlen (fst s) then 0 else if snd s then 1601 else 1603) ([], false) tr
     else 9999 in
   if negb (bound_code =? 0) then bound_code
-  (* component 11 is exempt from the growth heuristic: both of its coordinates are bounded at every
-     sample by the hard bound above, and its occupancy cycles modulo the media-packet count, so three
-     phase ends can increase by coincidence of the phase length (false alarm seen in the thorough tier) *)
-  else if negb (comp =? 12) && negb (comp =? 11) && grows3 (if comp =? 5 then map (firstn 1) (marks tr) else marks tr) then
+  (* The growth heuristic (strict growth over three identical steady-state phases) is applied only to
+     the components whose bound is relative to the workload (the two pacer queues and the rtpfb
+     history): there it is what exhibits unbounded growth.  Every other component has a constant or
+     configuration-derived hard bound tested at every sample above; inside such a bound an occupancy
+     may legitimately still be filling (arrival map up to 2^15, LRU up to 250) or cycle (flexfec media
+     buffer modulo NumMediaPackets), so three phase ends can increase without any leak - the
+     heuristic gave false alarms 502 / 602 / 1102 in the thorough tier and was withdrawn there;
+     a real leak exceeds the hard bound and differs from the model's size (mismatch). *)
+  else if ((comp =? 13) || (comp =? 14) || (comp =? 15)) && grows3 (marks tr) then
     if (comp =? 13) || (comp =? 14) then (if arg 0 cfg =? 1 then 100 * comp + 4 else 100 * comp + 2)
     else if comp =? 15 then (if has_op 2 tr || has_op 3 tr then 1503 else 1502)
     else 100 * comp + 2
